@@ -761,7 +761,7 @@ class C04Monitor(X.Monitor):
         if score is None or not score.maps:
             return
         policy = lane.config.label_params["matching_label_policy"].value
-        frames = manager.frame_results
+        frames = rec["delivered"]
         gt_counts = {}
         for fr in frames:
             for g in fr.frame_ground_truth.objects:
